@@ -10,23 +10,30 @@ for d in sorted(glob.glob('/verif/seeded/S-*')):
         t = open(log).read()
         v = re.findall(r'^VIOLATION property=\S+ replay=\S*/(\S+?)\.json', t, re.M)
         rc = re.search(r'^rc=(\d+)', t, re.M)
-        inc = len(re.findall(r'^INCONCLUSIVE', t, re.M))
-        det.append((tier, rc.group(1) if rc else '?', v, inc))
+        inc = re.findall(r'^INCONCLUSIVE: property=\S+ (\w+): (\w+)', t, re.M)
+        nohar = 'no harnesses registered' in t
+        det.append((tier, rc.group(1) if rc else '?', v, inc, nohar))
     m['det'] = det
     rows.append(m)
 print('| seed | property | change | needs to manifest | detected by |')
 print('|---|---|---|---|---|')
+n_det = 0
 for m in rows:
-    if m['det']:
-        parts = []
-        for tier, rc, v, inc in m['det']:
-            if v:
-                parts.append('**%s: VIOLATION** (%s)' % (tier, '; '.join(sorted(set(x.split('-', 1)[1] for x in v))[:3])))
-            elif rc == '0':
-                parts.append('%s: not detected (exit 0)' % tier)
-            else:
-                parts.append('%s: exit %s, %d inconclusive' % (tier, rc, inc))
-        dd = '<br>'.join(parts)
-    else:
-        dd = m.get('detection', 'pending')
+    parts = []
+    for tier, rc, v, inc, nohar in m['det']:
+        if v:
+            parts.append('**%s: VIOLATION** (%s)' % (tier, '; '.join(sorted(set(x.split('-', 1)[1] for x in v))[:2])))
+        elif rc == '0':
+            parts.append('%s: not detected (exit 0)' % tier)
+        elif nohar:
+            parts.append('property not claimed (no check)')
+        else:
+            parts.append('%s: not decided (exit %s: %s)' % (tier, rc, ', '.join(sorted(set('%s %s' % (h, w.lower()) for h, w in inc))[:2]) or 'inconclusive'))
+    if any('VIOLATION' in x for x in parts):
+        n_det += 1
+    if m.get('superseded'):
+        parts.append('superseded: ' + m['superseded'].split(':')[0])
+    dd = '<br>'.join(parts) if parts else m.get('detection', 'pending')
     print('| %s | %s | %s | %s | %s |' % (m['id'], m['property'], m['change'], m['needs_to_manifest'], dd))
+print()
+print('Detected: %d of %d.' % (n_det, len(rows)))
